@@ -157,6 +157,8 @@ struct inst {
   long n;         /* caller buffer length */
   char place;     /* L R H */
   uint8_t fill;
+  long hiwater;   /* library-managed buffer: the highest offset a successful
+                     call has returned - the harness reads nothing beyond it */
 };
 static struct inst I[MAXI];
 
@@ -394,6 +396,21 @@ static void reset_all(void) {
 
 static void pr_line(const char *s) { oputs(s); }
 
+/* is every page of [p, p+n) mapped?  (mincore fails with ENOMEM otherwise) */
+static int range_mapped(const uint8_t *p, size_t n) {
+  uintptr_t a = (uintptr_t)p & ~(uintptr_t)4095;
+  size_t len = (uintptr_t)p + n - a;
+  unsigned char vec[64];
+  while (len > 0) {
+    size_t part = len > 64 * 4096 ? 64 * 4096 : len;
+    if (mincore((void *)a, part, vec) != 0)
+      return 0;
+    a += part;
+    len -= part;
+  }
+  return 1;
+}
+
 int main(int argc, char **argv) {
   if (argc < 3) {
     fprintf(stderr, "usage: driver <script> <records>\n");
@@ -610,6 +627,8 @@ int main(int argc, char **argv) {
       }
       wrap_in_api = 0;
       int after = asm_get_offset(x->al);
+      if (rc == 0 && after > x->hiwater)
+        x->hiwater = after;
       long pfx_bad = 0;
       if (snap)
         for (long i = 0; i < snap; i++)
@@ -638,6 +657,13 @@ int main(int argc, char **argv) {
       long lo = atol(tok[2]), hi = atol(tok[3]);
       uint8_t *b = asm_get_code(x->al);
       uint64_t h = 1469598103934665603ULL;
+      if (hi > lo && ((!x->ext && hi > x->hiwater) ||
+                      !range_mapped(b + lo, (size_t)(hi - lo)))) {
+        /* the range is not (or no longer) part of any mapping: say so instead
+         * of faulting in the harness */
+        oputs("S unmapped\n");
+        continue;
+      }
       for (long i = lo; i < hi; i++)
         h = (h ^ b[i]) * 1099511628211ULL;
       oprintf("S %016llx\n", (unsigned long long)h);
